@@ -140,6 +140,21 @@ def run(repo, rep, tier):
     # left side fails with a lookup-type error (C04 owns the table)
     L.borrow(repo, rep, "R01.5", "C04", c04._tables,
              ("pipe-exceptions", "exists-exceptions"), minimum=1)
+    sup = [c for c in ast.walk(ds.node) if isinstance(c, ast.Call)
+           and src(c.func) in ("super().append", "list.append")]
+    rep.check(bool(sup), "R01.5", ds.qualname, "the debugging output stream "
+              "stores what it has checked", construct="debug-stream-appends",
+              where=L.where(ds))
+    sa = repo.func("chameleon.zpt.program.MacroProgram."
+                   "_create_static_attributes")
+    sk = [n for n in ast.walk(sa.node) if isinstance(n, ast.If)
+          and src(L._CanonIf._pos(n.test)[0]).replace(" ", "") ==
+          "nameisNone"]
+    rep.check(bool(sk) and all(any(isinstance(x, ast.Continue)
+                                   for x in n.body) for n in sk), "R01.5",
+              sa.qualname, "the 'attrs' dictionary holds the named static "
+              "attributes only (a nameless attribute-dictionary entry is "
+              "skipped)", construct="attrs-named-only", where=L.where(sa))
     L.state_rule(repo, rep)
 
 
@@ -185,6 +200,10 @@ PINNED = [
     ("condition", "<inner>", "guards enclose content/replace/element"),
     ("repeat", "<inner>", "guards enclose content/replace/element"),
     ("switch", "<inner>", "the switch value is cached around the children"),
+    ("switch", "domain", "an element's own i18n settings apply to its "
+                         "content, not to its own statements: the switch "
+                         "value (like define, condition and repeat) is "
+                         "evaluated with the enclosing element's settings"),
     ("domain", "<inner>", "translation settings apply to the content"),
     ("context", "<inner>", "translation settings apply to the content"),
     ("target", "<inner>", "translation settings apply to the content"),
